@@ -227,9 +227,38 @@ func (c *Client[C]) Ping(ctx context.Context) error {
 		default:
 		}
 	}
-	cancel, err := c.cc.AsyncPing(receivedPong)
-	if err != nil {
-		return err
+	// AsyncPing writes the ping with the connection's context, and that write can block (a transport
+	// handshake the peer does not answer, a peer that stopped reading): it must not keep Ping beyond ctx.
+	type asyncPing struct {
+		cancel func()
+		err    error
+	}
+	started := make(chan asyncPing, 1)
+	go func() {
+		cancel, err := c.cc.AsyncPing(receivedPong)
+		started <- asyncPing{cancel: cancel, err: err}
+	}()
+	abandon := func() {
+		// the ping may still get written later: nobody waits for its pong any more
+		go func() {
+			if p := <-started; p.err == nil {
+				p.cancel()
+			}
+		}()
+	}
+	var cancel func()
+	select {
+	case p := <-started:
+		if p.err != nil {
+			return p.err
+		}
+		cancel = p.cancel
+	case <-ctx.Done():
+		abandon()
+		return ctx.Err()
+	case <-c.cc.Context().Done():
+		abandon()
+		return fmt.Errorf("connection was closed: %w", c.cc.Context().Err())
 	}
 	defer cancel()
 	select {
